@@ -27,8 +27,30 @@ type splice struct {
 	ord  int
 }
 
+// coarse lists arithmetic packages whose functions compute on the memory their
+// caller hands them and hold no state of their own. In these only the first
+// statement of every function and every statement that writes through a
+// selector, index or pointer stay pre-emption points; yielding between the
+// other statements of a field multiplication reaches no new interleaving of
+// shared state and costs two orders of magnitude in simulated steps
+// (a CP-ABE encryption is 5*10^8 statements, almost all of them here).
+var coarse = []string{
+	"ecc/bls12381/ff/", "ecc/bls12381/", "ecc/goldilocks/", "ecc/fourq/", "ecc/p384/",
+	"math/fp25519/", "math/fp448/", "math/mlsbset/", "internal/sha3/", "simd/keccakf1600/",
+	"pke/kyber/internal/", "sign/internal/dilithium/", "vdaf/prio3/arith/", "dh/sidh/internal/", "dh/csidh/",
+}
+
+func isCoarse(rel string) bool {
+	for _, c := range coarse {
+		if strings.HasPrefix(rel, c) {
+			return true
+		}
+	}
+	return false
+}
+
 type stats struct {
-	Files, Sites, WriteSites, Brackets int
+	Files, Sites, WriteSites, SyncSites, Brackets, CoarseFiles int
 	SyncUsers                          []string
 	Unmodelled                         []string
 }
@@ -89,6 +111,11 @@ func main() {
 				usesSync = true
 			}
 		}
+		crs := isCoarse(rel)
+		if crs {
+			st.CoarseFiles++
+		}
+		funcFirst := map[ast.Stmt]bool{}
 		var instrList func(list []ast.Stmt)
 		isCall := func(s ast.Stmt, names ...string) (bool, *ast.CallExpr) {
 			es, ok := s.(*ast.ExprStmt)
@@ -116,10 +143,17 @@ func main() {
 				case *ast.CaseClause, *ast.CommClause:
 					// the entries of a switch / select body are not statements one can prefix
 				default:
+					syncCall := usesSync && hasSyncCall(s)
+					if crs && !writesShared(s) && !funcFirst[s] && !syncCall {
+						continue
+					}
 					site++
 					st.Sites++
 					call := fmt.Sprintf("verifsimrt.P(%d); ", site)
-					if writesShared(s) {
+					if syncCall {
+						call = fmt.Sprintf("verifsimrt.PS(%d); ", site)
+						st.SyncSites++
+					} else if writesShared(s) {
 						call = fmt.Sprintf("verifsimrt.PW(%d); ", site)
 						st.WriteSites++
 					}
@@ -172,6 +206,9 @@ func main() {
 			if fd.Doc != nil && (hasDirective(fd.Doc, "//go:nosplit") || hasDirective(fd.Doc, "//go:norace")) {
 				continue
 			}
+			if len(fd.Body.List) > 0 {
+				funcFirst[fd.Body.List[0]] = true
+			}
 			visit(fd.Body)
 		}
 		if len(sp) == 0 {
@@ -220,7 +257,7 @@ func main() {
 	}
 	sb, _ := json.Marshal(st)
 	os.WriteFile(filepath.Join(out, "yieldgen-stats.json"), sb, 0o644)
-	fmt.Printf("yieldgen: %d files, %d sites (%d shared-write sites), %d critical-section brackets, %d unmodelled constructs\n", st.Files, st.Sites, st.WriteSites, st.Brackets, len(st.Unmodelled))
+	fmt.Printf("yieldgen: %d files (%d coarse), %d sites (%d shared-write, %d sync-call), %d critical-section brackets, %d unmodelled constructs\n", st.Files, st.CoarseFiles, st.Sites, st.WriteSites, st.SyncSites, st.Brackets, len(st.Unmodelled))
 }
 
 func boolToInt(b bool) int {
@@ -237,6 +274,45 @@ func hasDirective(cg *ast.CommentGroup, d string) bool {
 		}
 	}
 	return false
+}
+
+// hasSyncCall: the statement itself (not the blocks nested in it) contains a method call
+// whose name is one of the sync / sync/atomic operations.
+func hasSyncCall(s ast.Stmt) bool {
+	names := map[string]bool{"Load": true, "Store": true, "LoadOrStore": true, "LoadAndDelete": true, "CompareAndSwap": true,
+		"Lock": true, "Unlock": true, "RLock": true, "RUnlock": true, "TryLock": true, "Do": true}
+	pkgFuncs := map[string]bool{"LoadUint32": true, "StoreUint32": true, "LoadUint64": true, "StoreUint64": true, "LoadPointer": true, "StorePointer": true,
+		"CompareAndSwapUint32": true, "CompareAndSwapUint64": true, "CompareAndSwapPointer": true, "AddUint32": true, "AddUint64": true, "LoadInt32": true, "StoreInt32": true, "AddInt32": true, "CompareAndSwapInt32": true}
+	found := false
+	var walk func(n ast.Node) bool
+	walk = func(n ast.Node) bool {
+		switch x := n.(type) {
+		case *ast.BlockStmt, *ast.FuncLit:
+			return false
+		case *ast.CallExpr:
+			if sel, ok := x.Fun.(*ast.SelectorExpr); ok {
+				if id, ok := sel.X.(*ast.Ident); ok && id.Name == "atomic" && pkgFuncs[sel.Sel.Name] {
+					found = true
+				} else if names[sel.Sel.Name] {
+					// receiver must look like a variable / field, not a package-qualified function of another package
+					found = true
+				}
+			}
+		}
+		return true
+	}
+	switch x := s.(type) {
+	case *ast.IfStmt:
+		if x.Init != nil {
+			ast.Inspect(x.Init, walk)
+		}
+		ast.Inspect(x.Cond, walk)
+	case *ast.ForStmt, *ast.RangeStmt, *ast.SwitchStmt, *ast.TypeSwitchStmt, *ast.SelectStmt, *ast.BlockStmt, *ast.LabeledStmt:
+		// their parts are statements of their own
+	default:
+		ast.Inspect(s, walk)
+	}
+	return found
 }
 
 func writesShared(s ast.Stmt) bool {
